@@ -1026,4 +1026,125 @@ theorem setupNode_eq_mkNode (ps : List FParam) (pout : List (String × Hint)) :
       = mkNode (ps.map fun p => { name := p.name, dflt := p.dflt }) (pout.map (·.1)) := by
   simp [setupNode, mkNode, chanPanel_setupIns, chanPanel_setupOuts, expectedIns, Function.comp_def]
 
+/-! ### which value lands at which position -/
+
+theorem bindRec_nil (names : List String) (kw : List (String × Val)) :
+    bindRec names [] kw = names.map fun n => (n, kw.lookup n) := by
+  induction names with
+  | nil => rfl
+  | cons n ns ih => simp [bindRec, ih]
+
+theorem bindRec_get (names : List String) (args : List Val) (kw : List (String × Val)) (i : Nat)
+    (h2 : i < names.length) :
+    ((bindRec names args kw)[i]?).bind (·.2) = if i < args.length then args[i]? else kw.lookup names[i] := by
+  induction names generalizing args i with
+  | nil => simp at h2
+  | cons n ns ih =>
+    cases args with
+    | nil =>
+      rw [bindRec_nil]
+      rw [List.getElem?_map, List.getElem?_eq_getElem h2]
+      simp
+    | cons a as =>
+      cases i with
+      | zero => simp [bindRec]
+      | succ j =>
+        have := ih as j (by simpa using h2)
+        simpa [bindRec] using this
+
+theorem mergeBind_get (sig : Sig) (b1 b2 : List (String × Option Val))
+    (h1 : b1.length = sig.length) (h2 : b2.length = sig.length) (i : Nat) (hi : i < sig.length) :
+    (mergeBind sig b1 b2)[i]? =
+      some (((b2[i]?).bind (·.2)) <|> ((b1[i]?).bind (·.2)) <|> sig[i].dflt) := by
+  induction sig generalizing b1 b2 i with
+  | nil => simp at hi
+  | cons p ps ih =>
+    cases b1 with
+    | nil => simp at h1
+    | cons x xs =>
+      cases b2 with
+      | nil => simp at h2
+      | cons y ys =>
+        cases i with
+        | zero => simp [mergeBind]
+        | succ j =>
+          have := ih xs ys (by simpa using h1) (by simpa using h2) j (by simpa using hi)
+          simpa [mergeBind] using this
+
+theorem allSome_get (l : List (Option Val)) (vs : List Val) (h : allSome l = some vs) (i : Nat) (hi : i < l.length) :
+    l[i]? = some vs[i]? := by
+  induction l generalizing vs i with
+  | nil => simp at hi
+  | cons x xs ih =>
+    cases x with
+    | none => simp [allSome] at h
+    | some v =>
+      simp only [allSome, Option.map_eq_some_iff] at h
+      obtain ⟨w, hw, rfl⟩ := h
+      cases i with
+      | zero => simp
+      | succ j => simpa using ih w hw j (by simpa using hi)
+
+/-- **positions**: when Python binds `vs`, the value at position `i` is, in this order of precedence: the
+`i`-th positional value of the call, the call's keyword value named like parameter `i`, the `i`-th
+positional value of the construction, the construction's keyword value of that name, the default of
+parameter `i` — the object itself -/
+theorem pyArgs_get (sig : Sig) (a1 : List Val) (k1 : List (String × Val)) (a2 : List Val)
+    (k2 : List (String × Val)) (hnd : (sig.map (·.name)).Nodup) (vs : List Val)
+    (hp : pyArgs sig a1 k1 a2 k2 = .ok vs) :
+    vs.length = sig.length ∧
+    ∀ i (hi : i < sig.length), vs[i]? =
+      ((if i < a2.length then a2[i]? else k2.lookup sig[i].name) <|>
+       (if i < a1.length then a1[i]? else k1.lookup sig[i].name) <|> sig[i].dflt) := by
+  unfold pyArgs at hp
+  cases hb1 : pyBindPartial (sig.map (·.name)) a1 k1 with
+  | error e => simp [hb1] at hp
+  | ok b1 =>
+    cases hb2 : pyBindPartial (sig.map (·.name)) a2 k2 with
+    | error e => simp [hb1, hb2] at hp
+    | ok b2 =>
+      simp only [hb1, hb2] at hp
+      cases hm : allSome (mergeBind sig b1 b2) with
+      | none => simp [hm] at hp
+      | some ws =>
+        simp only [hm, Except.ok.injEq] at hp
+        subst hp
+        have e1 := (bindRec_of_ok _ a1 k1 b1 hnd hb1).2
+        have e2 := (bindRec_of_ok _ a2 k2 b2 hnd hb2).2
+        have l1 : b1.length = sig.length := by rw [e1, bindRec_length]; simp
+        have l2 : b2.length = sig.length := by rw [e2, bindRec_length]; simp
+        refine ⟨by rw [allSome_length _ _ hm, mergeBind_length sig b1 b2 l1 l2], ?_⟩
+        intro i hi
+        have hg := allSome_get _ _ hm i (by rw [mergeBind_length sig b1 b2 l1 l2]; exact hi)
+        rw [mergeBind_get sig b1 b2 l1 l2 i hi] at hg
+        have hn : i < (sig.map (·.name)).length := by simpa using hi
+        have g1 := bindRec_get (sig.map (·.name)) a1 k1 i hn
+        have g2 := bindRec_get (sig.map (·.name)) a2 k2 i hn
+        rw [← e1] at g1
+        rw [← e2] at g2
+        simp only [List.getElem_map] at g1 g2
+        rw [g1, g2] at hg
+        exact (Option.some.inj hg).symm
+
+/-! ### item labels, index order -/
+
+theorem itemLabels_length (pre : String) (n : Nat) : (itemLabels pre n).length = n := by
+  simp [itemLabels]
+
+theorem itemLabels_get (pre : String) (n i : Nat) (h : i < n) :
+    (itemLabels pre n)[i]'(by rw [itemLabels_length]; exact h) = pre ++ toString i := by
+  simp [itemLabels]
+
+theorem noDefault_get (ls : List String) (i : Nat) (h : i < ls.length) :
+    ((noDefault ls)[i]'(by simpa [noDefault] using h)).name = ls[i] ∧
+    ((noDefault ls)[i]'(by simpa [noDefault] using h)).dflt = none := by
+  simp [noDefault]
+
+/-- the copying `_setup_node` keeps labels, hints and what the defaults look like — only identity is lost -/
+theorem setupInsCopied_labels (fresh : Nat → Nat) (i : Nat) (pin : List InPrev) :
+    (setupInsCopied fresh i pin).map (·.label) = pin.map (·.label) := by
+  induction pin generalizing i with
+  | nil => rfl
+  | cons p ps ih => simp [setupInsCopied, ih]
+
 end PwVerif.FuncWrap
